@@ -61,6 +61,8 @@ def run(ctx):
     ctx.do(C18.rule_member_forward, rule_id="C12.all-answers-filtered")
     from .hidden_state import rule_no_hidden_state
     ctx.do(rule_no_hidden_state, "C12.history-independence")
+    from .pitfalls import rule_loops_not_cut_short
+    ctx.do(rule_loops_not_cut_short, "C12.loops-complete")
 
 
 def _op_chain(fi):
